@@ -142,6 +142,11 @@ def main(argv):
             if ob["status"] == "discharged":
                 by_solver[ob.get("solver")] = by_solver.get(ob.get("solver"), 0) + 1
 
+    # callees replaced by an ASSUMED contract (an opaque result that is a function of the arguments): unchecked assumptions
+    assumed_callees = set()
+    if cfg.get("contracts"):
+        assumed_callees = {C.fn for C in registry if C.modular and not C.props}
+
     # ---------------- (b) frame obligations
     frame_obs = []
     if cfg.get("frames"):
@@ -282,6 +287,7 @@ def main(argv):
         trusted_base=P.TRUSTED_BASE + cfg.get("trusted", []),
         functions_under_contract=sorted(functions),
         inlined_callees=sorted(inlined - functions), callees_via_contract=sorted(via),
+        assumed_callee_contracts=sorted(v for v in via if v in assumed_callees),
         discharged_by=by_solver, solver_seconds=round(solver_seconds, 2),
         not_discharged=[dict(obligation=o["name"], status=o["status"], reason=str(o.get("detail"))[:200], fallback=o.get("fallback")) for o in obligations if o["status"] != "discharged" and o.get("name") not in kf_names][:60],
         samples=samples,
@@ -305,7 +311,8 @@ def main(argv):
         coverage["explanation"] = ("NOT AT PROOF LEVEL IN THIS RUN: %d of %d obligations were not discharged (see not_discharged; each is covered only by the "
                                    "BOUNDED fallback named there). " % (n_ob - n_dis, n_ob)) + coverage.get("explanation", "")
     ev = dict(property_id=pid, tier=tier, seed=seed, level=level, coverage=coverage,
-              assumptions=P.ASSUMPTIONS + cfg.get("assumptions", []), wall_s=round(time.time() - t_start, 2),
+              assumptions=P.ASSUMPTIONS + cfg.get("assumptions", []) + ["assumed (unverified) contract on callee %s: its result is an uninterpreted function of its arguments" % v
+                                                                          for v in sorted(via) if v in assumed_callees], wall_s=round(time.time() - t_start, 2),
               violations=len(violations))
     with open(evidence_path, "w") as f:
         json.dump(ev, f, indent=1, default=str)
